@@ -247,6 +247,10 @@ func genE2E(t *rapid.T) e2eCase {
 		case x == 16:
 			c.Ops = append(c.Ops, eop{Op: "cmd", Cmd: [][]byte{b(rapid.SampledFrom([]string{"HGET", "hget"}).Draw(t, "hg")), hkey(), field()}})
 		case x == 17:
+			if rapid.IntRange(0, 2).Draw(t, "hscan") == 0 {
+				c.Ops = append(c.Ops, eop{Op: "cmd", Cmd: [][]byte{b(rapid.SampledFrom([]string{"HSCAN", "hscan"}).Draw(t, "hs")), hkey(), b("0")}})
+				break
+			}
 			c.Ops = append(c.Ops, eop{Op: "cmd", Cmd: [][]byte{b(rapid.SampledFrom([]string{"HGETALL", "HVALS"}).Draw(t, "ha")), hkey()}})
 		case x == 18:
 			c.Ops = append(c.Ops, eop{Op: "cmd", Cmd: [][]byte{b("HMGET"), hkey(), b("f0"), b("f1"), b("f3")}})
@@ -272,6 +276,7 @@ func genE2E(t *rapid.T) e2eCase {
 	}
 	for k := 0; k < 4; k++ {
 		c.Ops = append(c.Ops, eop{Op: "cmd", Cmd: [][]byte{b("HGETALL"), b(fmt.Sprintf("h%d", k))}})
+		c.Ops = append(c.Ops, eop{Op: "cmd", Cmd: [][]byte{b("HSCAN"), b(fmt.Sprintf("h%d", k)), b("0")}})
 	}
 	return c
 }
